@@ -1011,6 +1011,7 @@ int applyRewrite(int kind, std::vector<Block>& deck, vh::Rng& rng) {
                 nl.glue = false;
                 l.toks.resize(t);
                 l.tail = rng.coin(1, 4) ? " " : "";
+                if (l.eol.empty()) l.eol = "\n";      // last line of a file without a final newline
                 out.push_back(std::move(l));
                 out.push_back(std::move(nl));
                 ++done;
